@@ -33,23 +33,33 @@ def privileged : List Role := [.owner, .admin, .pauser, .router]
 -- =====================================================================================
 
 set_option maxRecDepth 100000 in
-/-- every endpoint the compiled contracts export is classified in the access table -/
+/-- every endpoint the compiled contracts export is classified: by a row of the access table, or — for an
+    endpoint the table does not list — by the ABI default (`Access.abiDefault`: read-only ⇒ view,
+    `#[only_owner]` ⇒ owner-guarded configuration).  An unlisted endpoint that is mutable and callable by
+    anybody is NOT classified and breaks this obligation. -/
 theorem inventory_classified :
-    ∀ x ∈ Mx.Gen.endpoints, (lookup x.1 x.2.1).isSome = true := by decide +kernel
+    ∀ x ∈ Mx.Gen.endpoints, (classify x.1 x.2.1 x.2.2.1 x.2.2.2.1).isSome = true := by decide +kernel
+
+/-- what the ABI default can be: a view open to everybody in every state, or configuration that only the
+    contract owner passes — never a fund-moving, on-behalf or contract-only class, never an unrestricted setter -/
+theorem abi_default_is_safe (e : String) (ow ro : Bool) (ent : Entry) (h : abiDefault e ow ro = some ent) :
+    (ent.cls = Class.view ∧ ro = true) ∨ (ent.cls = Class.config ∧ ent.guard = Guard.scOwner ∧ ow = true) := by
+  unfold abiDefault at h
+  cases ro <;> cases ow <;> simp_all [vw, cfg] <;> subst h <;> simp
 
 set_option maxRecDepth 100000 in
 /-- the ABI's `only_owner` flag and the table agree, in both directions: an endpoint is
     `#[only_owner]` in the compiled contract iff the table guards it by the contract owner -/
 theorem only_owner_agrees :
     ∀ x ∈ Mx.Gen.endpoints,
-      (x.2.2.1 = true ↔ (lookup x.1 x.2.1).map (·.guard) = some Guard.scOwner) := by decide +kernel
+      (x.2.2.1 = true ↔ (classify x.1 x.2.1 x.2.2.1 x.2.2.2.1).map (·.guard) = some Guard.scOwner) := by decide +kernel
 
 set_option maxRecDepth 100000 in
 /-- every endpoint the ABI marks read-only is classified as a view, and every endpoint the
     table treats as fund-moving or on-behalf is mutable in the ABI -/
 theorem readonly_agrees :
     ∀ x ∈ Mx.Gen.endpoints,
-      (x.2.2.2.1 = true → (lookup x.1 x.2.1).map (·.cls) = some Class.view) := by decide +kernel
+      (x.2.2.2.1 = true → (classify x.1 x.2.1 x.2.2.1 x.2.2.2.1).map (·.cls) = some Class.view) := by decide +kernel
 
 set_option maxRecDepth 100000 in
 /-- the table has no second entry for the same endpoint name (lookups are unambiguous) -/
